@@ -87,6 +87,7 @@ PROPS = {
         "units": [
             {"name": "c10.random", "pkg": BPV7, "test": "TestVerifC10Random", "shards_t": 16},
             {"name": "c10.small", "pkg": BPV7, "test": "TestVerifC10Small", "shards_t": 16, "shards_q": 4},
+            {"name": "c10.store", "pkg": STORAGE, "test": "TestVerifC10Store", "shards_t": 8, "shards_q": 2},
         ],
     },
     "C17": {
